@@ -116,6 +116,16 @@ theorem indThenObj_constrs (st : State) (cls key iname bounds body oname maximiz
     · exact hi
   · exact hi
 
+theorem indThenFail_constrs (st : State) (cls key iname bounds body e) :
+    (st.indThenFail cls key iname bounds body e).1.constrs = st.constrs := by
+  unfold State.indThenFail
+  have hi := addIndicator_constrs st cls key iname bounds body
+  split
+  · rename_i st' heq
+    rw [heq] at hi
+    exact hi
+  · exact hi
+
 theorem stepIndicator_constrs (st : State) (d) : (stepIndicator st d).1.constrs = st.constrs := by
   unfold stepIndicator
   split
@@ -125,7 +135,8 @@ theorem stepIndicator_constrs (st : State) (d) : (stepIndicator st d).1.constrs 
 theorem stepObjective_constrs (st : State) (d) : (stepObjective st d).1.constrs = st.constrs := by
   unfold stepObjective
   repeat' split
-  all_goals first | rfl | exact addObjective_constrs _ _ _ _ _ _ | exact indThenObj_constrs _ _ _ _ _ _ _ _
+  all_goals first | rfl | exact addObjective_constrs _ _ _ _ _ _ | exact indThenObj_constrs _ _ _ _ _ _ _ _ |
+    exact indThenFail_constrs _ _ _ _ _ _ _
 end PS
 
 namespace PS
